@@ -99,6 +99,16 @@ PROPS = {
         "level_text": "Theorems over all Jobs/JobConfigs of the model: resubmitting the defaulted object changes nothing (Job create through configName expansion, owner lookup, option evaluation and substitution merge; Job update; JobConfig create), the finalizer and every listed default are present and submitter values kept, configName yields the JobConfig's template, owner reference, UID label (overriding forged ones), its concurrency policy unless one was given, configName cleared, submitter labels win over template labels, substitutions follow explicit > option > jobconfig context, lastUpdated is stamped exactly on schedule creation/change unless the submitted value lies in the future. The model is tied to the real webhooks by the mutate stream through the patch actually returned.",
         "level_note": "Partial on patch faithfulness (differential, with the API server's patch library). Trusted: Coq kernel + vm_compute.",
     },
+    "C20": {
+        "props_file": "Props/C20.v",
+        "theorems": ["c20_cron_failed_item_requeued", "c20_cron_never_lost", "c20_cron_retry_converges", "c20_cron_retry_idempotent", "c20_status_failed_pass_requeued", "c20_status_retry_converges", "c20_status_exact_whatever_failed", "c20_queue_failed_start_changes_nothing"],
+        "families": [{"name": "faultdiff", "n_quick": 300, "n_thorough": 8000}, {"name": "recon", "n_quick": 200, "n_thorough": 6000}, {"name": "jcstatus", "n_quick": 200, "n_thorough": 6000}, {"name": "queue", "n_quick": 150, "n_thorough": 4000}],
+        "rule": "faultdiff: one workload run twice on the real controllers - with a finite random pattern of injected server errors / conflicts and without - both driven to quiescence (everything delivered, every rate-limited re-add fired, queue drained), final API state compared: (a) cron reconciler + ExecutionControl under reconciler.Controller.work: fixed JobConfigs, 2-7 schedule requests with duplicates, failures on create; compared: the set of Jobs with identity fields; (b) jobconfig status controller: a Job lifecycle history (create/start/phase/delete/schedule edits), failed status writes and conflicts on stale caches; compared: active/queued references, counts, state, and the high-water marks when no Job was deleted; (c) admission queue: 2-6 Jobs of all policies created up front, failed start and refuse writes; compared: started / refused Jobs and the counter. The faulty cron-reconciler run is also a model case. recon / jcstatus / queue: the streams of C02 / C15 / C05 (their histories include injected failures, conflicts, retries and restarts) tie the worlds the theorems speak about to the code",
+        "trusted": ["as C02, C15, C05 for the three worlds"],
+        "assumptions": ["partial: convergence is proved for the cron reconciler and the jobconfig status controller (a burst of n failures on one work item, then success) and 'a failed start changes nothing but the failure' for the admission queue; for the job controller (tasks created / killed / finalised under failures) there is no convergence theorem - its histories with create/delete/update failures are judged by the safety monitors of C08-C13 in their own checks", "Invalid (non-retryable) create errors become events and are not retried, by design: they are excluded from the differential runs", "timeouts after the write was applied (F8 hypothesis) are not generated", "the safety monitors of C02, C05, C06, C08-C13 run on the same fault-injecting streams in those properties' checks; they are not re-reported under C20"],
+        "level_text": "Theorems: a failed cron work item is re-queued and leaves API and caches untouched; a queued key is never dropped except by error-free processing or a restart; after any n consecutive server errors the n+1-th attempt yields exactly the fault-free API (the Job exists once, queue empty); re-processing an existing schedule time changes nothing; a failed jobconfig status pass changes nothing and is re-queued, after n failed writes the fault-free status is written, and every settled state is exact whatever failed before; a failed start write in the admission queue only consumes the failure (counter rolled back). Differential runs on the real controllers compare faulty and fault-free final states.",
+        "level_note": "Partial: no convergence theorem for the job controller world. Trusted: Coq kernel + vm_compute; harness fault injection (reactors on the fake clientsets).",
+    },
     "C05": {
         "props_file": "Props/C05.v",
         "theorems": ["c05_pass_bound", "c05_no_double_increment", "c05_release_on_finish", "c05_release_on_delete", "c05_store_steps", "c05_rollback", "c05_recover"],
